@@ -183,6 +183,7 @@ def retireLine (toks : List String) : Option String := do
   let zero ← kv toks "zero"; let age ← (← kv toks "age").toInt?; let abort ← kv toks "abort"
   let overlap ← kv toks "overlap"; let n ← (← kv toks "n").toNat?
   let idle ← optTime? (← kv toks "idle"); let cancel ← optTime? (← kv toks "cancel")
+  let succ := (kv toks "succ").getD "0"
   let sc : RetScenario := ⟨zero == "1", abort == "1", overlap == "1", age, n, idle, cancel⟩
   -- the whole chain in the transition system: a reload about to succeed, the retirement step, the
   -- hand-over of the release to a goroutine, exactly `retireDoneAt` of model time, completion, release
@@ -202,7 +203,7 @@ def retireLine (toks : List String) : Option String := do
       let m1 := (step s2 (.tick (quiesceNs - 1))).map isMuted
       let m2 := (step s2 (.tick quiesceNs)).map isMuted
       let ob := fun (o : Option Bool) => match o with | some b => b01 b | none => "x"
-      some (s!"done={d} aborted={ab} oldcancel=1 final={fin s2} mute={b01 m0},{ob m1},{ob m2}" ++
+      some (s!"done={d} aborted={ab} oldcancel=1 cleanup={succ} final={fin s2} mute={b01 m0},{ob m1},{ob m2}" ++
         (if late then " clock-not-urgent" else ""))
     | none => some "disabled"
   | none => some "disabled"
@@ -211,8 +212,8 @@ def retOp (ws : List String) : Option String :=
   match ws with
   | ["const", "total"] => some s!"total={totalSwitchBudget}"
   | ["const", "quiesce"] => some s!"quiesce={quiesceNs}"
-  | ["const", "readywait"] => some "positive=1"
-  | ["const", "preparewait"] => some "positive=1"
+  | ["const", "readywait"] => some s!"positive={b01 (decide (0 < Gen.readyTimeoutNs))} ns={Gen.readyTimeoutNs}"
+  | ["const", "preparewait"] => some s!"positive={b01 (decide (0 < Gen.prepareTimeoutNs))} ns={Gen.prepareTimeoutNs}"
   | ["budget", z, age, b] => do
     let a ← age.toInt?; let bb ← b.toInt?
     pure s!"rem={remBudget (z == "1") a bb}"
@@ -221,6 +222,14 @@ def retOp (ws : List String) : Option String :=
     let idle ← optTime? (← kv toks "idle"); let cancel ← optTime? (← kv toks "cancel")
     pure (s!"at={drainTime mw n idle cancel} res=" ++ "|".intercalate ((drainResults mw n idle cancel).map resStr))
   | "retire" :: toks => retireLine toks
+  | "rwait" :: toks => do
+    let tmo ← (← kv toks "timeout").toInt?
+    let rep ← optTime? (← kv toks "report"); let ok := (kv toks "ok").getD "1"
+    let term ← optTime? (← kv toks "term")
+    let tstr := match waitDoneAt tmo rep term with | some t => toString t | none => "never"
+    let rs := (waitResults tmo rep (ok == "1") term).map fun r =>
+      match r with | .ready => "ready" | .failed => "failed" | .signal => "signal" | .timeout => "timeout"
+    pure (s!"at={tstr} res=" ++ (if rs.isEmpty then "none" else "|".intercalate rs))
   | _ => none
 
 
